@@ -15,7 +15,19 @@ that explicit:
    the property), over valid and invalid class-level defaults of every kind;
  * pre-converted data: the data (or its members) is first passed through a generic untyped
    element - what a caller does who reads an envelope first and hands the payload to the
-   specific schema afterwards - and must then be filled with defaults exactly like plain dicts."""
+   specific schema afterwards - and must then be filled with defaults exactly like plain dicts.
+
+"Never an error" is a statement about every way a default can go wrong, not only about the two exception classes the
+library expects from a validator.  Two oracle clauses and one family make that explicit:
+ * a call without a value never raises, whatever the exception (the expected answer is not computed by asking the
+   same element to convert the same default and forgiving whatever that raises);
+ * a build from data that omits defaulted properties is compared with the *default-free twin* - the same schema in
+   which exactly the properties the data omits (at every nesting level of the data) declare no default: where the twin
+   accepts the data, nothing but the defaults can be the cause of an error, so the schema itself must accept it too
+   (`default_error_oracle`; schema form, DSL form and inherited classes);
+ * numeric defaults over a ladder of magnitudes (10^-12 .. 10^40, ints and floats, both signs, random digits) under
+   random numeric keywords, alone, as a member of a model class and of an untyped object, renamed or not
+   (`magnitude_case`): arithmetic on a default must not depend on the default being of an everyday size."""
 import copy
 import itertools
 import random
@@ -214,21 +226,102 @@ def arg_of(j):
     return core.NP if isinstance(j, dict) and j == NPJ and type(j["np"]) is int else j
 
 
-def check_no_value(e, real, case, out, stats, what="called without a value"):
-    """`real` is the outcome of calling e with no value: its own default (converted when valid, raw when not), or the marker."""
+def check_no_value(e, real, case, out, stats, what="called without a value", crash_ok=True):
+    """`real` is the outcome of calling e with no value: its own default (converted when valid, raw when not), or the marker.
+    Never an error - of any class.  `crash_ok`: an OverflowError / ZeroDivisionError is left to C10-float-overflow where the
+    model predicts the very same crash (the caller knows; replays and model-free callers that stay far away from the float
+    range pass False)."""
     exp = expected_default(e)
     if real["r"] == "ok":
         if real["v"] != exp and not (isinstance(exp, dict) and "exc" in exp):
             out.failures.append({"case": case, "what": f"{what}: expected {exp}, got {real['v']}", "finding": None})
     elif real["r"] == "reject":
         out.failures.append({"case": case, "what": f"{what}: raised the validation error", "finding": None})
-    elif real["r"] in ("typeError", "exc", "recursion"):
+    elif real["r"] == "crash" and crash_ok:
+        bump(stats, "no-value-call-crash-left-to-C10-float-overflow")
+    else:
         bump(stats, "no-value-call-" + real["r"])
-        if not (isinstance(exp, dict) and "exc" in exp):
-            out.failures.append({"case": case, "what": f"{what}: raised {real.get('exc', real['r'])}", "finding": None})
+        out.failures.append({"case": case, "what": f"{what}: raised {real.get('exc', real['r'])} ({real.get('msg', '')}); a default is never an error "
+                             f"(expected {exp})", "finding": None, "crash": real["r"] == "crash"})
 
 
-def check_sequence(el, schema, values, reals, agrees, pre, out, stats, note=None, upto=None):
+# ----------------------------------------------------------------------------- the default-free twin
+
+def _strip_omitted(s, v):
+    if not isinstance(s, dict) or not isinstance(v, dict) or not isinstance(s.get("properties"), dict):
+        return 0
+    n = 0
+    for name, sub in s["properties"].items():
+        if not isinstance(sub, dict):
+            continue
+        if name not in v:
+            if "default" in sub:
+                del sub["default"]
+                n += 1
+        else:
+            n += _strip_omitted(sub, v[name])
+    return n
+
+
+def schema_twin(schema, v):
+    """The element of the same schema in which every property the data omits (at every nesting level of the data) declares
+    no default; None when the data omits no defaulted property."""
+    twin = copy.deepcopy(schema)
+    if not _strip_omitted(twin, v):
+        return None
+    status, el = core.real_parse(twin)
+    return el if status == "ok" else None
+
+
+def dsl_twin(dump, v):
+    from harness import dsl
+    twin, n = copy.deepcopy(dump), 0
+    for key, sub in twin.get("props", []):
+        if (key.get("source") or key["name"]) not in v and "default" in sub.get("kw", {}):
+            del sub["kw"]["default"]
+            n += 1
+    return dsl.build(twin) if n else None
+
+
+def chain_twin(spec, ci, v):
+    n, twin = 0, copy.deepcopy(spec)
+    for layer in twin[:ci + 1]:
+        for entry in layer:
+            if (entry[1] or entry[0]) not in v and entry[3] is not None:
+                entry[3] = None
+                n += 1
+    return build_chain(twin)[ci] if n else None
+
+
+def default_error_oracle(real, twin, v, case, out, stats, crash_ok=True):
+    """`real` (not ok) is the outcome of building from the dict `v`; `twin()` builds the default-free twin of the element.
+    The twin differs from the element only in the defaults of properties that `v` omits, and an omitted property without a
+    default contributes nothing to a build but the marker: if the twin accepts `v`, the error can only come from resolving
+    a default - which is never an error."""
+    if real["r"] == "ok" or not isinstance(v, dict):
+        return
+    try:
+        tw = twin()
+        twin_real = None if tw is None else core.real_call(tw, v)
+    except Exception:  # noqa: BLE001 - no twin to compare with (or data that an earlier call has turned into something that cannot be copied)
+        bump(stats, "twin-not-built")
+        return
+    if tw is None:
+        return
+    bump(stats, "twin-compared")
+    if twin_real["r"] != "ok":
+        bump(stats, "twin-also-fails")
+        return
+    if real["r"] == "crash" and crash_ok:
+        bump(stats, "twin-crash-left-to-C10-float-overflow")
+        return
+    bump(stats, "twin-accepts-" + real["r"])
+    how = "is rejected" if real["r"] == "reject" else f"raises {real.get('exc', real['r'])} ({real.get('msg', '')})"
+    out.failures.append({"case": case, "what": f"the build {how}, although the same data is accepted when the properties it omits declare no default: "
+                         "resolving the default of an omitted property became an error", "finding": None, "crash": real["r"] == "crash"})
+
+
+def check_sequence(el, schema, values, reals, agrees, pre, out, stats, note=None, upto=None, crash_ok=True):
     """One element, a sequence of calls.  `reals[i]` is the outcome of the first call with values[i] (all of them made, in
     order, before this runs); every value is then looked at in turn.  A failing case names the whole sequence and the
     position, so that a replay goes through the same history on a fresh element."""
@@ -241,14 +334,15 @@ def check_sequence(el, schema, values, reals, agrees, pre, out, stats, note=None
         if isinstance(v, NotPassed):
             if note:
                 note(i, "default" in schema if isinstance(schema, dict) else False)
-            check_no_value(el, real, case, out, stats)
+            check_no_value(el, real, case, out, stats, crash_ok=crash_ok and agrees[i])
             # and again: the answer to a call without a value does not wear off
             bump(stats, "no-value-call-repeated")
-            check_no_value(el, core.real_call(el, core.NP), case, out, stats, "called without a value a second time")
+            check_no_value(el, core.real_call(el, core.NP), case, out, stats, "called without a value a second time", crash_ok and agrees[i])
             continue
         if real["r"] == "reject" and isinstance(v, dict):
             bump(stats, "rejected-objects")
             omission_oracle(el, v, case, out, stats, agrees[i])
+        default_error_oracle(real, lambda: schema_twin(schema, v), v, case, out, stats, crash_ok and agrees[i])  # pylint: disable=cell-var-from-loop
         if real["r"] != "ok" or not isinstance(v, dict):
             continue
         try:
@@ -351,6 +445,7 @@ def dsl_case(drv, rng, out, stats):
         if real["r"] == "reject":
             stats["dsl-rejected"] = stats.get("dsl-rejected", 0) + 1
             omission_oracle(el, v, {"element": dump, "value": enc}, out, stats, agrees)
+        default_error_oracle(real, lambda: dsl_twin(dump, v), v, {"element": dump, "value": v}, out, stats, agrees)  # pylint: disable=cell-var-from-loop
         if real["r"] != "ok":
             continue
         out.note_case({"element": dump, "value": enc}, True)
@@ -412,6 +507,7 @@ def inherit_case(rng, out, stats):
             out.note_case(case, True)
             if real["r"] != "ok":
                 omission_oracle(cls, v, case, out, stats)
+                default_error_oracle(real, lambda: chain_twin(spec, ci, v), v, case, out, stats)  # pylint: disable=cell-var-from-loop
                 continue
             stats["inherit-accepted"] = stats.get("inherit-accepted", 0) + 1
             check_object(cls, v, cls(v), case, out, stats, True)
@@ -500,6 +596,7 @@ def run_history(el, schema, ops, out, stats, upto=None):
             real = core.real_call(el, v)
             if real["r"] == "reject":
                 omission_oracle(el, v, case, out, stats)
+            default_error_oracle(real, lambda: schema_twin(schema, v), v, case, out, stats)  # pylint: disable=cell-var-from-loop
             if real["r"] != "ok":
                 continue
             try:
@@ -539,6 +636,85 @@ def history_case(rng, sg, vg, out, stats):
         bump(stats, "history-failing-cases")
 
 
+# ----------------------------------------------------------------------------- numeric defaults of every magnitude
+
+MAG_MULTIPLES = [0.01, 0.1, 0.25, 0.5, 1.5, 2.5, 0.001, 1e-06, 0.3, 1, 2, 3, 7, 10, 1000, 2 ** 31]
+MAG_BOUNDS = ["minimum", "maximum", "exclusiveMinimum", "exclusiveMaximum"]
+
+
+def magnitude_number(rng, lo=-12, hi=40):
+    """+-(1..4 random digits) * 10^k, as an int or as a float: from far below 1 to far beyond 2^53 and beyond 28 digits, but
+    nowhere near the float range (so that C10-float-overflow explains nothing here)."""
+    k = rng.randint(lo, hi)
+    digits = rng.choice([1, 1, rng.randint(1, 9), rng.randint(1, 9999)])
+    x = digits * 10 ** k if k >= 0 else digits / 10 ** -k
+    if rng.random() < 0.25:
+        x += rng.choice([1, -1, 0.5])
+    if rng.random() < 0.5:
+        x = float(x)
+    elif isinstance(x, float) and x == int(x) and rng.random() < 0.5:
+        x = int(x)
+    return -x if rng.random() < 0.25 else x
+
+
+def _span(x):
+    a = abs(x)
+    return "zero" if a == 0 else "<1" if a < 1 else "<2^53" if a < 2 ** 53 else "<10^28" if a < 10 ** 28 else ">=10^28"
+
+
+def real_sequence(schema, values, out, stats, crash_ok=True):
+    """A (schema, values) sequence on the real code alone (no model at hand: every listed region is taken to apply)."""
+    status, el = core.real_parse(schema)
+    if status != "ok":
+        bump(stats, "real-sequence-parse-" + status)
+        return None
+    reals = [core.real_call(el, v) for v in values]
+    check_sequence(el, schema, values, reals, [True] * len(values), [None] * len(values), out, stats, crash_ok=crash_ok,
+                   note=lambda i, nontrivial: out.note_case({"schema": schema, "value": plain_arg(values[i])}, nontrivial))
+    return reals
+
+
+def magnitude_case(rng, out, stats):
+    """A numeric leaf with random numeric keywords and a default anywhere on the magnitude ladder: called without a value,
+    and omitted from / supplied to a model class and an untyped object that declare it (under a plain or a renamed name)."""
+    leaf = {}
+    typ = rng.choice(["number", "number", "integer", None])
+    if typ:
+        leaf["type"] = typ
+    if rng.random() < 0.7:
+        leaf["multipleOf"] = rng.choice(MAG_MULTIPLES)
+    for kw in rng.sample(MAG_BOUNDS, rng.choice([0, 0, 1, 2])):
+        leaf[kw] = magnitude_number(rng)
+    d = magnitude_number(rng)
+    if "multipleOf" in leaf and rng.random() < 0.6:
+        # a default meant to be valid: a whole multiple (as far as binary floats allow)
+        d = leaf["multipleOf"] * (int(d) if abs(d) >= 1 else rng.randint(1, 9))
+    leaf["default"] = d
+    bump(stats, "magnitude-cases")
+    bump(stats, "magnitude-default-" + type(d).__name__ + "-" + _span(d))
+    if "multipleOf" in leaf:
+        bump(stats, "magnitude-quotient-" + type(leaf["multipleOf"]).__name__ + "-" + _span(d / leaf["multipleOf"]))
+    try:
+        status, el = core.real_parse({k: x for k, x in leaf.items() if k != "default"})
+        bump(stats, "magnitude-default-" + ("valid" if status == "ok" and core.real_call(el, d)["r"] == "ok" else "invalid-or-error"))
+    except Exception:  # noqa: BLE001 - statistics only
+        pass
+    before = len(out.failures)
+    real_sequence(leaf, [core.NP], out, stats, crash_ok=False)
+    name, other = rng.sample(HIST_NAMES, 2)
+    supplied = rng.choice([1, 2.5, 0, magnitude_number(rng)])
+    values = [{}, {other: "s"}, {name: supplied}, {name: supplied, other: "s"}, core.NP]
+    for titled in (True, False):
+        schema = {"properties": {name: leaf, other: {"type": "string", **({"default": "dflt"} if rng.random() < 0.5 else {})}}}
+        if titled:
+            schema.update({"type": "object", "title": "Num"})
+        if rng.random() < 0.3:
+            schema["default"] = {}
+        real_sequence(schema, values, out, stats, crash_ok=False)
+    if len(out.failures) > before:
+        bump(stats, "magnitude-failing-cases")
+
+
 def run(ctx, scale=1.0):
     rng = random.Random(ctx["seed"] + 5)
     out = Outcome()
@@ -547,7 +723,9 @@ def run(ctx, scale=1.0):
                 "(<= 16 per schema) plus the call without a value (twice); every accepted object also with its data pre-converted by a generic "
                 "untyped element (whole / as an envelope's payload / member by member), defaults checked at every nesting level of the data; "
                 "operation histories (no-value calls of the element and of its properties' elements and builds from data, 5-9 steps, over valid and "
-                "invalid class-level defaults of 8 kinds); a case is a (schema, supplied-subset) pair or a history prefix; distinct by SHA-256")
+                "invalid class-level defaults of 8 kinds); numeric leaves with random numeric keywords and defaults of every magnitude "
+                "(10^-12 .. 10^40, ints and floats) called without a value and omitted from / supplied to a model class and an untyped object; every "
+                "build that fails is compared with the default-free twin of its schema (the omitted properties declare no default); a case is a (schema, supplied-subset) pair or a history prefix; distinct by SHA-256")
     stats = {}
     drv = core.Driver()
     try:
@@ -588,6 +766,8 @@ def run(ctx, scale=1.0):
             inherit_case(rng, out, stats)
         for _ in range(int(n * 0.4)):
             history_case(rng, sg, vg, out, stats)
+        for _ in range(int(n * 0.6)):
+            magnitude_case(rng, out, stats)
     finally:
         drv.close()
     # report first what lies outside every listed region (a failure inside one is unexplained only because the model or the
@@ -597,7 +777,39 @@ def run(ctx, scale=1.0):
     return out
 
 
+def aimed(reason):
+    """The inputs on which model and implementation disagreed, judged by the statement's own oracles on the real code
+    (each one also with its data emptied and with no value at all: a default that became an error shows there)."""
+    from harness import dsl
+    out, stats = Outcome(), {}
+    for dis in (reason or {}).get("disagreements", []):
+        if "value" not in dis:
+            continue
+        try:
+            v = arg_of(dis["value"]) if dis["value"] == NPJ else dsl.dec_val(dis["value"])
+            values = [v] + ([{}] if isinstance(v, dict) and v else []) + [core.NP]
+            if "schema" in dis:
+                real_sequence(dis["schema"], values, out, stats)
+            elif "element" in dis:
+                el = dsl.build(dis["element"])
+                for x in values:
+                    case = {"element": dis["element"], "value": plain_arg(x)}
+                    if isinstance(x, NotPassed):
+                        check_no_value(el, core.real_call(el, x), case, out, stats)
+                    elif isinstance(x, dict):
+                        real = core.real_call(el, x)
+                        default_error_oracle(real, lambda: dsl_twin(dis["element"], x), x, case, out, stats)  # pylint: disable=cell-var-from-loop
+                        if real["r"] == "ok":
+                            check_object(el, x, el(x), case, out, stats, True)
+        except Exception:  # noqa: BLE001 - an input the real-code oracles cannot take: the broad search follows
+            continue
+    return [f for f in out.failures if f.get("finding") is None and not f.get("region")]
+
+
 def search(ctx, reason):
+    fresh = aimed(reason)
+    if fresh:
+        return fresh[0]
     sub = dict(ctx)
     sub["seed"] = ctx["seed"] + 67867967
     found = run(sub, scale=3.0 if ctx["tier"] == "quick" else 1.0)
@@ -615,13 +827,15 @@ def _fails(schema, value, element=None, pre=None, original=None):
     if status != "ok":
         return False
     if value == {"np": 1}:
-        real = core.real_call(el, core.NP)
-        return real["r"] != "ok" or real["v"] != expected_default(el)
-    try:
-        res = el(value)
-    except Exception:  # noqa: BLE001
-        omission_oracle(el, value, {}, out, stats)
+        check_no_value(el, core.real_call(el, core.NP), {}, out, stats, crash_ok=not (original or {}).get("crash"))
         return bool(out.failures)
+    real = core.real_call(el, value)
+    if real["r"] != "ok":
+        omission_oracle(el, value, {}, out, stats)
+        default_error_oracle(real, (lambda: dsl_twin(element, value)) if element is not None else (lambda: schema_twin(schema, value)), value, {}, out, stats,
+                             not (original or {}).get("crash"))
+        return bool(out.failures)
+    res = el(value)
     if pre:
         check_preconverted(el, value, res, pre, {}, out, stats, True)
     else:
@@ -651,7 +865,7 @@ def _sequence_fails(case, original=None):
     values = [arg_of(j) for j in case["values"]]
     reals = [core.real_call(el, v) for v in values]
     pre = case.get("pre") or [None] * len(values)
-    check_sequence(el, case["schema"], values, reals, [True] * len(values), pre, out, stats, upto=case["index"])
+    check_sequence(el, case["schema"], values, reals, [True] * len(values), pre, out, stats, upto=case["index"], crash_ok=not (original or {}).get("crash"))
     return _recurs([f for f in out.failures if f["case"].get("index") == case["index"]], original)
 
 
@@ -679,6 +893,7 @@ def _inherit_fails(case):
     real = core.real_call(cls, v)
     if real["r"] != "ok":
         omission_oracle(cls, v, case, out, stats)
+        default_error_oracle(real, lambda: chain_twin(case["inherit"], case["class"], v), v, case, out, stats)
     else:
         check_object(cls, v, cls(v), case, out, stats, True)
     return bool(out.failures)
